@@ -91,6 +91,8 @@ func c02(r *ev.Result, tier string) {
 		budget = 10 * time.Minute
 	}
 	exploreProfiles(r, budget, c02Profiles(isQuick(tier))...)
+	/* The HTTP seam: the same clauses through the real handlers over TLS. */
+	c02HTTP(r)
 
 	/* Payload enumeration: each payload is entered once before the shell
 	attaches and once after, on every writer kind. */
